@@ -5,6 +5,7 @@
 from __future__ import annotations
 
 import collections.abc as cabc
+import contextlib
 import dataclasses
 import enum
 import logging
@@ -366,3 +367,23 @@ def get_spec_text(seb: SemanticElementBuilder) -> str:
         return ""
     text = helpers.unescape_linked_text(seb.melodyloader, spec.text)
     return text.striptags()
+
+
+@contextlib.contextmanager
+def temporary_attribute(
+    element: etree._Element, name: str, value: str
+) -> cabc.Iterator[None]:
+    """Set an XML attribute for the duration of the block only.
+
+    Parsing a diagram must not modify the model it reads from.
+    """
+    missing = object()
+    old = element.attrib.get(name, missing)
+    element.attrib[name] = value
+    try:
+        yield
+    finally:
+        if old is missing:
+            del element.attrib[name]
+        else:
+            element.attrib[name] = old
